@@ -14,7 +14,7 @@ RULE = ("seeded typed expressions (arithmetic incl. division, comparisons, CASE/
         "expression with an operator or function; distinct = distinct (operator/function skeleton with operand type classes)")
 ASSUMPTIONS = ["only the type class is compared, never width or precision"]
 SPEC = {
-    "quick": {"shards": 16, "time_cap": 150, "exprs": 40000},
+    "quick": {"shards": 16, "time_cap": 400, "exprs": 40000},
     "thorough": {"shards": 16, "time_cap": 1500, "exprs": 100000},
 }
 
